@@ -484,6 +484,41 @@ func (m *mon) variants(cs consensus.State, orig types.Block) []variant {
 				b.V2.Transactions = append(b.V2.Transactions, types.V2Transaction{FileContractResolutions: []types.V2FileContractResolution{chaingen.CloneV2(*t).FileContractResolutions[0]}})
 				add("v2-resolution-then-second-resolution-txn/"+kind, b)
 			}
+			// a second, fully funded renewal of a contract that was already renewed in this block
+			if ren, isRenew := res.Resolution.(*types.V2FileContractRenewal); isRenew {
+				used := map[types.SiacoinOutputID]bool{}
+				for _, tt := range orig.V2Transactions() {
+					for _, in := range tt.SiacoinInputs {
+						used[in.Parent.ID] = true
+					}
+				}
+				for _, tt := range orig.Transactions {
+					for _, in := range tt.SiacoinInputs {
+						used[in.ParentID] = true
+					}
+				}
+				cost := ren.NewContract.RenterOutput.Value.Add(ren.NewContract.HostOutput.Value).Add(cs.V2FileContractTax(ren.NewContract))
+				need := cost.Sub(ren.RenterRollover.Add(ren.HostRollover))
+				for _, id := range c.S.OrderedSC() {
+					e := c.S.SCEs[id]
+					l := c.W.Locks[e.SiacoinOutput.Address]
+					if used[id] || l == nil || !l.SpendableV2(cs.Index.Height, chaingen.Median(cs)) || e.MaturityHeight > h || e.SiacoinOutput.Value.Cmp(need) < 0 || l.Kind == "uc-unknown-alg" {
+						continue
+					}
+					t2 := types.V2Transaction{
+						SiacoinInputs:           []types.V2SiacoinInput{{Parent: e.Copy(), SatisfiedPolicy: types.SatisfiedPolicy{Policy: l.Policy}}},
+						FileContractResolutions: []types.V2FileContractResolution{chaingen.CloneV2(*t).FileContractResolutions[0]},
+					}
+					if rest := e.SiacoinOutput.Value.Sub(need); !rest.IsZero() {
+						t2.SiacoinOutputs = []types.SiacoinOutput{{Value: rest, Address: dest}}
+					}
+					c.SignV2(cs, &t2, nil)
+					b := chaingen.CloneBlock(orig)
+					b.V2.Transactions = append(b.V2.Transactions, t2)
+					add("v2-renewal-then-second-funded-renewal-txn", b)
+					break
+				}
+			}
 			// second resolution of another kind: an expiration after any resolution, when the height allows it
 			if fc := res.Parent.V2FileContract; h > fc.ExpirationHeight {
 				if _, isExp := res.Resolution.(*types.V2FileContractExpiration); !isExp {
